@@ -3,7 +3,7 @@
    Byte strings are lists of Z; every theorem quantifies over ALL strings (and all schemas / keywords where they occur).
    What is NOT proved is listed in props/C09/meta.json (crash- and hang-freedom of the C++ is exploration only). *)
 From Coq Require Import ZArith List Bool Arith Lia.
-From CV Require Import C09.ParseModel C09.ParseProofs C09.NumProofs C09.LookupProofs C09.FlatProofs C09.ValueProofs.
+From CV Require Import C09.ParseModel C09.ParseProofs C09.NumProofs C09.LookupProofs C09.FlatProofs C09.ValueProofs C09.ComposedProofs.
 Import ListNotations.
 Local Open Scope Z_scope.
 
@@ -17,10 +17,7 @@ Theorem C09_model_total_partial : forall strict schema raw, schema_ok schema ->
   parse_config strict schema raw <> POutOfFuel /\
   (forall conf, parse_flat strict schema conf <> POutOfFuel) /\
   (forall conf key sp, key <> [] -> key_lookup (fuel_of conf) conf key sp <> KL_outoffuel).
-Proof.
-  intros strict schema raw H. split; [apply parse_config_total; exact H|].
-  split; [intros conf; apply parse_flat_total; exact H|exact key_lookup_total].
-Qed.
+Proof. exact model_total_partial. Qed.
 Print Assumptions C09_model_total_partial.
 
 (* the fuel of the value loops is sufficient: any larger fuel gives the same list of values *)
@@ -28,12 +25,7 @@ Theorem C09_value_loop_fuel_suffices : forall f1 f2 l, (length l < f1)%nat -> (l
   forall dl, extract_all extract_real dl f1 l = extract_all extract_real dl f2 l /\
   extract_all extract_int dl f1 l = extract_all extract_int dl f2 l /\
   extract_all extract_word dl f1 l = extract_all extract_word dl f2 l.
-Proof.
-  intros f1 f2 l H1 H2 dl. repeat split.
-  - exact (extract_all_fuel extract_real extract_real_progress dl f1 f2 l H1 H2).
-  - exact (extract_all_fuel extract_int extract_int_progress dl f1 f2 l H1 H2).
-  - exact (extract_all_fuel extract_word extract_word_progress dl f1 f2 l H1 H2).
-Qed.
+Proof. exact value_loop_fuel_suffices. Qed.
 Print Assumptions C09_value_loop_fuel_suffices.
 
 (* ---------------------------------------------------------------- braces *)
@@ -42,7 +34,7 @@ Print Assumptions C09_value_loop_fuel_suffices.
 Theorem C09_check_braces_counts : forall conf start,
   (check_braces conf start = true <-> balanced (skipn start conf)) /\
   (check_braces conf O = true <-> balanced conf).
-Proof. intros conf start. split; [apply check_braces_iff|apply check_braces_iff_balanced]. Qed.
+Proof. exact check_braces_counts. Qed.
 Print Assumptions C09_check_braces_counts.
 
 (* kept visible: the count test does not check nesting ("}{" passes); what happens downstream is decided by the tie *)
@@ -71,14 +63,7 @@ Theorem C09_comments_and_line_ends :
      strip_comments (p ++ w ++ LF :: q) = strip_comments (p ++ q)) /\
   (forall p l, ends_lf p -> no_lf l -> l <> [] -> strip_comments (p ++ l) = strip_comments (p ++ l ++ [LF])) /\
   (forall s, ~ In HASH (strip_comments s)).
-Proof.
-  repeat split.
-  - exact strip_comments_crlf.
-  - exact strip_comments_trailing_comment.
-  - exact strip_comments_blank_line.
-  - exact strip_comments_final_newline.
-  - exact strip_comments_no_hash.
-Qed.
+Proof. exact comments_and_line_ends. Qed.
 Print Assumptions C09_comments_and_line_ends.
 
 (* ---------------------------------------------------------------- key_lookup *)
@@ -92,16 +77,7 @@ Theorem C09_key_lookup_found_iff : forall conf key sp, good_key key ->
   (key_lookup (fuel_of conf) conf key sp = KL_notfound <-> forall j, (sp <= j)%nat -> ~ kw_occurrence conf key j) /\
   (forall pos d sp' r, key_lookup (fuel_of conf) conf key sp = KL_found pos d sp' r ->
      (sp <= pos)%nat /\ kw_occurrence conf key pos /\ forall j, (sp <= j < pos)%nat -> ~ kw_occurrence conf key j).
-Proof.
-  intros conf key sp Hg. destruct (key_lookup_found_iff conf key sp Hg) as [H1 H2]. split.
-  - rewrite H1. split; intros H j Hj Hc; apply (H j Hj).
-    + apply (proj2 (kw_candidate_iff conf key j Hg)). exact Hc.
-    + apply (proj1 (kw_candidate_iff conf key j Hg)). exact Hc.
-  - intros pos d sp' r E. destruct (H2 pos d sp' r E) as [R [Hc Hn]].
-    split; [exact R|split].
-    + apply (proj1 (kw_candidate_iff conf key pos Hg)). exact Hc.
-    + intros j Hj Ho. apply (Hn j Hj). apply (proj2 (kw_candidate_iff conf key j Hg)). exact Ho.
-Qed.
+Proof. exact key_lookup_found_iff_decl. Qed.
 Print Assumptions C09_key_lookup_found_iff.
 
 (* "balanced braces after the keyword" is "block depth 0 at the keyword" in a configuration that passed check_braces *)
@@ -115,13 +91,7 @@ Print Assumptions C09_depth_zero.
 Theorem C09_pinned_right_isolation_refuted :
   (exists conf klen, isolated_right_pinned conf O klen = true /\ ~ right_clear conf O klen) /\
   (exists conf klen, isolated_right_pinned conf O klen = false /\ right_clear conf O klen).
-Proof.
-  split.
-  - exists [99; 111; 108; 118; 97; 114; 120], 6%nat. split; [reflexivity|].
-    unfold right_clear. cbn. intros H. specialize (H ltac:(lia)). unfold LF, SP, TAB, LBRACE in H.
-    destruct H as [H|[H|[H|[H|[]]]]]; discriminate.
-  - exists [99; 111; 108; 118; 97; 114], 6%nat. split; [reflexivity|]. unfold right_clear. cbn. lia.
-Qed.
+Proof. exact pinned_right_isolation_refuted. Qed.
 Print Assumptions C09_pinned_right_isolation_refuted.
 
 (* letter case: two configurations that differ only in letter case, looked up with keywords that differ only in
@@ -145,7 +115,7 @@ Theorem C09_single_line_value_layout :
      ~ In LBRACE rest ->
      exists data reg, extract_value fuel conf key pos = KL_found pos data le reg /\ trimmed_to rest data) /\
   (forall l c1 c2, trimmed_to l c1 -> trimmed_to l c2 -> c1 = c2).
-Proof. split; [exact extract_value_single_line|exact trimmed_unique]. Qed.
+Proof. exact single_line_value_layout_thm. Qed.
 Print Assumptions C09_single_line_value_layout.
 
 (* split_string terminates within the fuel the model gives it, for every text and every delimiter *)
@@ -192,11 +162,7 @@ Theorem C09_pinned_scalar_rule_refuted :
   (exists data d, scalar_value_lenient extract_real data = SAccept d /\ scalar_value extract_real data = SReject) /\
   (exists data z, scalar_value_lenient extract_int data = SAccept z /\ scalar_value extract_int data = SReject) /\
   (forall data d, scalar_value extract_real data = SAccept d -> scalar_value_lenient extract_real data = SAccept d).
-Proof.
-  split; [exact real_scalar_lenient_refuted|]. split; [exact real_scalar_lenient_refuted2|].
-  split; [exact int_scalar_lenient_refuted|].
-  exact (scalar_value_implies_lenient extract_real extract_real_progress).
-Qed.
+Proof. exact pinned_scalar_rule_refuted. Qed.
 Print Assumptions C09_pinned_scalar_rule_refuted.
 
 (* lists of values (after the repairs): accepted iff the WHOLE text is a sequence of values, each followed by white
@@ -206,21 +172,7 @@ Print Assumptions C09_pinned_scalar_rule_refuted.
 Theorem C09_vector_values_strict : forall data vs n,
   (vector_dyn extract_real data = VAccept vs <-> tokens_of extract_real data vs) /\
   (vector_fixed extract_real n data = VAccept vs <-> tokens_of extract_real data vs /\ length vs = n).
-Proof.
-  intros data vs n.
-  assert (T : forall vs0, extract_all extract_real true (S (length data)) data = (vs0, []) <-> tokens_of extract_real data vs0).
-  { intros vs0. apply (extract_all_tokens extract_real extract_real_progress). lia. }
-  split.
-  - unfold vector_dyn. split.
-    + intros H. destruct (extract_all extract_real true (S (length data)) data) as [vs' r] eqn:E.
-      destruct r; [|discriminate]. inversion H. subst vs'. apply T. reflexivity.
-    + intros H. apply T in H. rewrite H. reflexivity.
-  - unfold vector_fixed. split.
-    + intros H. destruct (extract_all extract_real true (S (length data)) data) as [vs' r] eqn:E.
-      destruct r; [|discriminate]. destruct (Nat.eqb_spec (length vs') n) as [En|En]; [|discriminate].
-      inversion H. subst vs'. split; [apply T; reflexivity|exact En].
-    + intros [H En]. apply T in H. rewrite H. subst n. rewrite Nat.eqb_refl. reflexivity.
-Qed.
+Proof. exact vector_values_strict. Qed.
 Print Assumptions C09_vector_values_strict.
 
 Theorem C09_pinned_vector_rules_refuted :
@@ -228,10 +180,7 @@ Theorem C09_pinned_vector_rules_refuted :
   (exists data vs, vector_fixed_lenient extract_real 1 data = VAccept vs /\ vector_fixed extract_real 1 data = VReject) /\
   (exists data vs, vector_dyn_lenient extract_real data = VAccept vs /\ length vs = 2%nat /\
                    vector_dyn extract_real data = VReject).
-Proof.
-  split; [exact vector_dyn_lenient_refuted|]. split; [exact vector_fixed_lenient_refuted|].
-  exact vector_unseparated_refuted.
-Qed.
+Proof. exact pinned_vector_rules_refuted. Qed.
 Print Assumptions C09_pinned_vector_rules_refuted.
 
 (* ---------------------------------------------------------------- examples: the premises are satisfiable *)
